@@ -142,13 +142,21 @@ class C08(Check):
             errs.append(("extra-assembly", f"assembly keys {list(ospec)!r}"))
         if (st.cuts, st.breaks, st.joins) != (0, 0, 0):
             errs.append(("stats-nonzero", f"cuts,breaks,joins={(st.cuts, st.breaks, st.joins)}"))
+        elif any(v for d_ in getattr(st, "per_assembly_stats", {}).values() for v in d_.values()):
+            # the per-assembly numbers are what the info.yaml report shows
+            errs.append(("stats-nonzero/per-assembly", f"{st.per_assembly_stats!r}"))
         got = ospec.get(None, [])
         got_rows = [(n, [tuple(r[:5]) if r[0] == "F" else tuple(r) for r in rows]) for n, rows in got]
         if not painted:
             gd = dict(got_rows)
             if len(gd) != len(got_rows) or gd != want:
                 errs.append(("content-differs", f"got {got_rows!r} expected {want!r}"))
-            elif not prefixed and [n for n, _ in got_rows] != [n for n, _ in inp]:
+            elif (
+                not prefixed
+                and all(re.fullmatch(r"scaffold_\d+", n) for n, _ in inp)
+                and [int(n.split("_")[1]) for n, _ in inp] == sorted(int(n.split("_")[1]) for n, _ in inp)
+                and [n for n, _ in got_rows] != [n for n, _ in inp]
+            ):
                 # (the inputs of this scope list their scaffolds in natural name order, which is also the output order)
                 errs.append(("scaffold-order-differs", f"got {[n for n, _ in got_rows]!r} expected {[n for n, _ in inp]!r}"))
             if any(r[0] == "F" and r[5] for _, rows in got for r in rows):
@@ -185,14 +193,17 @@ class C08(Check):
         """inputs that mix haplotype-prefixed and plain scaffold names, in every order, unpainted null maps"""
         lens = (2, 5, 9)
         names = ("hap1_scaffold_1", "scaffold_2", "HAP2_SCAFFOLD_3", "scaffold_4")
+        # names with a <letters><digits>_ prefix that is no haplotype (scaffolded assemblies): all of them multi-contig
+        names2 = ("chr1_RagTag", "scaffold12_1", "scaffold_3")
         for style in ("tpf", "fasta"):
             for k in (2, 3):
-                for chosen in itertools.permutations(names, k):
-                    if not (any(n.lower().startswith("hap") for n in chosen) and any(not n.lower().startswith("hap") for n in chosen)):
+                for chosen in [*itertools.permutations(names, k), *itertools.permutations(names2, k)]:
+                    plain = chosen[0] in names2
+                    if not plain and not (any(n.lower().startswith("hap") for n in chosen) and any(not n.lower().startswith("hap") for n in chosen)):
                         continue
                     for ll in itertools.product(lens, repeat=k):
                         inp = tuple(
-                            (n, pv.scaffold_rows(style, n, (ln, 3), (SEPS[1],), (1, 1)) if i == 0 else pv.scaffold_rows(style, n, (ln,), (), (1,)))
+                            (n, pv.scaffold_rows(style, n, (ln, 3), (SEPS[1],), (1, 1)) if (i == 0 or plain) else pv.scaffold_rows(style, n, (ln,), (), (1,)))
                             for i, (n, ln) in enumerate(zip(chosen, ll))
                         )
                         per = []
@@ -264,3 +275,4 @@ CHECK = C08()
 CHECK.rule += " Mixed-name family: inputs of 2-3 scaffolds that mix haplotype-prefixed names (hap1_scaffold_1, HAP2_SCAFFOLD_3) with plain ones, every order; prefixed scaffolds must come out unchanged exactly once (their assembly is C09's business), every other scaffold in the primary output, nothing else anywhere."
 CHECK.rule += ' Unpainted: output scaffold order == input order (inputs are listed in natural name order). Painted maps also with the autosome prefixes S and Scaffold_ (which Pretext scaffold names begin with).'
 CHECK.rule += ' Second scaffolds that are a further piece of the first scaffold\'s first contig (one sequence name in two scaffolds).'
+CHECK.rule += ' Per-assembly break / join numbers (what info.yaml shows) must be zero too; inputs named chr1_RagTag / scaffold12_1 / scaffold_3 (a <letters><digits>_ prefix that is no haplotype), all multi-contig.'
